@@ -2,6 +2,8 @@
 package basic
 
 import (
+	"bytes"
+	"crypto/sha256"
 	"time"
 
 	enc "github.com/named-data/ndnd/std/encoding"
@@ -20,13 +22,27 @@ func (verifSigner) SigInfo() (*ndn.SigConfig, error)            { return &ndn.Si
 func (verifSigner) EstimateSize() uint                          { return 32 }
 func (verifSigner) ComputeSigValue(enc.Wire) ([]byte, error)    { return make([]byte, 32), nil }
 
+// the two raw Data wires the harness feeds (onData does not parse them; it only hashes them for Interests that
+// carry an implicit digest) and their digests
+var verifC20Raws = [][]byte{{0x06, 0x00}, {0x06, 0x02, 0x07, 0x00}}
+
+func verifC20Digest(k int) []byte {
+	if k >= len(verifC20Raws) {
+		return make([]byte, 32) // a digest no Data has
+	}
+	d := sha256.Sum256(verifC20Raws[k])
+	return d[:]
+}
+
 type verifPend struct {
+	digest      []byte // implicit digest requested (nil: none); the Interest name is name + this component
 	name        enc.Name
 	canBePrefix bool
 	expressedAt time.Time
 	lifetime    time.Duration
 	results     []ndn.InterestResult
 	dataNames   []enc.Name
+	dataRaws    [][]byte
 	resolvedAt  []time.Time
 }
 
@@ -35,7 +51,11 @@ func verifC20Name(tag string, maxDepth int) enc.Name {
 	n := make(enc.Name, d)
 	for i := range n {
 		c := "a"
-		if verifChoice(tag+"c", verifParam("letters", 2)) == 1 {
+		letters := verifParam("letters", 2)
+		if verifC20Letters != 0 {
+			letters = verifC20Letters
+		}
+		if letters > 1 && verifChoice(tag+"c", letters) == 1 {
 			c = "b"
 		}
 		n[i] = enc.NewStringComponent(enc.TypeGenericNameComponent, c)
@@ -43,24 +63,46 @@ func verifC20Name(tag string, maxDepth int) enc.Name {
 	return n
 }
 
-func verifSatisfies(p *verifPend, data enc.Name) bool {
+func verifSatisfies(p *verifPend, data enc.Name, raw []byte) bool {
+	if p.digest != nil {
+		d := sha256.Sum256(raw)
+		if !bytes.Equal(p.digest, d[:]) {
+			return false
+		}
+	}
 	if p.name.Equal(data) {
 		return true
 	}
 	return p.canBePrefix && p.name.IsPrefix(data) && len(p.name) < len(data)
 }
 
-func VerifC20_ExpressResolve() {
-	verifC20Resolve(verifParam("pending", 2), verifParam("events", 3), verifParam("depth", 2), verifParam("reexpress", 0) != 0)
+func (p *verifPend) fullName() enc.Name {
+	if p.digest == nil {
+		return p.name
+	}
+	return append(append(enc.Name{}, p.name...), enc.NewBytesComponent(enc.TypeImplicitSha256DigestComponent, p.digest))
 }
+
+func VerifC20_ExpressResolve() {
+	verifC20Resolve(verifParam("pending", 2), verifParam("events", 3), verifParam("depth", 2), verifParam("reexpress", 0) != 0, false)
+}
+
+// the same with Interests that may carry an implicit digest (of one of the two raw Data wires the harness feeds, or of
+// none), Nacks that may name a digest-bearing Interest, over the names /a, /a/a (Data also /a/a/a)
+func VerifC20_ImplicitDigest() {
+	verifC20Letters = 1
+	verifC20Resolve(verifParam("dpending", 2), verifParam("devents", 2), 2, false, true)
+}
+
+var verifC20Letters = 0
 
 // the same history universe with further Interests expressed in mid-history (a retry after a Nack or a timeout),
 // over names of one component so that four events stay affordable
 func VerifC20_ExpressResolveRetry() {
-	verifC20Resolve(1, verifParam("retryevents", 4), 1, true)
+	verifC20Resolve(1, verifParam("retryevents", 4), 1, true, false)
 }
 
-func verifC20Resolve(maxPend, maxEvents, depth int, reexpress bool) {
+func verifC20Resolve(maxPend, maxEvents, depth int, reexpress bool, digests bool) {
 	face := dummy.NewDummyFace()
 	timer := dummy.NewTimer()
 	e := NewEngine(face, timer, verifSigner{}, func(enc.Name, enc.Wire, ndn.Signature) bool { return true })
@@ -69,17 +111,26 @@ func verifC20Resolve(maxPend, maxEvents, depth int, reexpress bool) {
 	var pend []*verifPend
 	express := func() {
 		p := &verifPend{name: verifC20Name("n", depth), canBePrefix: verifBool("cbp")}
-		p.lifetime = time.Duration(verifRange("lifetime", 1, 10000)) * time.Millisecond
+		if digests {
+			// the timing dimension is explored by the harnesses without digests
+			p.lifetime = 4 * time.Second
+		} else {
+			p.lifetime = time.Duration(verifRange("lifetime", 1, 10000)) * time.Millisecond
+		}
 		p.expressedAt = timer.Now()
+		if digests && verifBool("implicitDigest") {
+			p.digest = verifC20Digest(verifChoice("digestOf", len(verifC20Raws)))
+		}
 		lt := p.lifetime
 		pp := p
-		err := e.Express(&ndn.EncodedInterest{Wire: enc.Wire{[]byte{0x05, 0x00}}, FinalName: p.name,
+		err := e.Express(&ndn.EncodedInterest{Wire: enc.Wire{[]byte{0x05, 0x00}}, FinalName: p.fullName(),
 			Config: &ndn.InterestConfig{CanBePrefix: p.canBePrefix, Lifetime: &lt}},
 			func(a ndn.ExpressCallbackArgs) {
 				pp.results = append(pp.results, a.Result)
 				pp.resolvedAt = append(pp.resolvedAt, timer.Now())
 				if a.Result == ndn.InterestResultData {
 					pp.dataNames = append(pp.dataNames, a.Data.Name())
+					pp.dataRaws = append(pp.dataRaws, a.RawData.Join())
 				}
 			})
 		verifAssert(err == nil, "C20/express-ok")
@@ -88,13 +139,16 @@ func verifC20Resolve(maxPend, maxEvents, depth int, reexpress bool) {
 	np := 1 + verifChoice("npend", maxPend)
 	for i := 0; i < np; i++ {
 		express()
-		if verifBool("gap") {
+		if !digests && verifBool("gap") {
 			timer.MoveForward(time.Duration(verifRange("gapms", 0, 10000)) * time.Millisecond)
 		}
 	}
 	nev := verifChoice("nevents", maxEvents+1)
 	for i := 0; i < nev; i++ {
 		nkinds := 3
+		if digests {
+			nkinds = 2 // Data, Nack
+		}
 		if reexpress && len(pend) < maxPend+1 {
 			nkinds = 4 // a further Interest is expressed in mid-history (e.g. a retry after a Nack)
 		}
@@ -107,27 +161,35 @@ func verifC20Resolve(maxPend, maxEvents, depth int, reexpress bool) {
 			for j, p := range pend {
 				before[j] = len(p.results)
 			}
-			verifNoPanic("C20/onData-no-panic", func() { e.onData(&spec.Data{NameV: dn}, nil, enc.Wire{[]byte{0x06, 0x00}}, nil) })
+			raw := verifC20Raws[0]
+			if digests {
+				raw = verifC20Raws[verifChoice("raw", len(verifC20Raws))]
+			}
+			verifNoPanic("C20/onData-no-panic", func() { e.onData(&spec.Data{NameV: dn}, nil, enc.Wire{raw}, nil) })
 			for j, p := range pend {
-				if before[j] == 0 && verifSatisfies(p, dn) {
+				if before[j] == 0 && verifSatisfies(p, dn, raw) {
 					verifAssert(len(p.results) == 1 && p.results[0] == ndn.InterestResultData, "C20/data-resolves-every-pending-interest-it-satisfies")
 				}
-				if !verifSatisfies(p, dn) {
+				if !verifSatisfies(p, dn, raw) {
 					verifAssert(len(p.results) == before[j], "C20/data-resolves-only-interests-it-satisfies")
 				}
 			}
 		case 1: // Nack for a name
 			nn := verifC20Name("k", depth)
+			if digests && verifBool("nackWithDigest") {
+				// the Nack names an Interest that carried an implicit digest
+				nn = append(nn, enc.NewBytesComponent(enc.TypeImplicitSha256DigestComponent, verifC20Digest(verifChoice("nackDigestOf", len(verifC20Raws)))))
+			}
 			before := make([]int, len(pend))
 			for j, p := range pend {
 				before[j] = len(p.results)
 			}
 			verifNoPanic("C20/onNack-no-panic", func() { e.onNack(nn, spec.NackReasonNoRoute) })
 			for j, p := range pend {
-				if before[j] == 0 && p.name.Equal(nn) {
+				if before[j] == 0 && p.fullName().Equal(nn) {
 					verifAssert(len(p.results) == 1 && p.results[0] == ndn.InterestResultNack, "C20/nack-resolves-pending-interest-of-that-name")
 				}
-				if !p.name.Equal(nn) {
+				if !p.fullName().Equal(nn) {
 					verifAssert(len(p.results) == before[j], "C20/nack-resolves-only-that-name")
 				}
 			}
@@ -145,7 +207,7 @@ func verifC20Resolve(maxPend, maxEvents, depth int, reexpress bool) {
 		verifAssert(len(p.results) <= 1, "C20/callback-at-most-once")
 		for i, r := range p.results {
 			if r == ndn.InterestResultData {
-				verifAssert(verifSatisfies(p, p.dataNames[0]), "C20/resolved-only-by-satisfying-data")
+				verifAssert(verifSatisfies(p, p.dataNames[0], p.dataRaws[0]), "C20/resolved-only-by-satisfying-data")
 			}
 			if r == ndn.InterestResultTimeout {
 				verifAssert(!p.resolvedAt[i].Before(p.expressedAt.Add(p.lifetime)), "C20/timeout-not-before-lifetime")
